@@ -68,6 +68,7 @@ const (
 
 	ErrorCodeStartRelayPullFail = 2001
 	ErrorCodeListenUdpPortFail  = 2002
+	ErrorCodeStartRtpPubFail    = 2003
 )
 
 type ApiRespBasic struct {
